@@ -316,6 +316,9 @@ def det_asyncThreadcheck(name, func, *args, **kwargs):
     """The helper thread's work + completion is one external event"""
     w = W
     loop = events._get_running_loop()
+    if loop is None:
+        # (the loop of the simulated process on whose behalf the code runs)
+        loop = w.loops[w.current_pid]
     fut = loop.create_future()
     enabled = None
     slf = getattr(func, "__self__", None)
